@@ -484,7 +484,8 @@ func init() {
 	register(&vf.Check{
 		ID:        "C15",
 		Technique: "runtime monitor with single-violation mutants of wsref-generated conforming streams read through all four APIs on a scripted transport; the monitor knows position and class and checks error reporting, non-delivery, Close(1002) on the wire and refusal of writes",
-		Rule: "cases = conforming stream (1-6 messages, 1-4 fragments, ping/pong in between) with exactly one mutation from {RSV bit; masked server frame; control frame FIN=0; control frame with 126-180 payload bytes; reserved opcode 3-7 / 11-15; continuation with no message in progress; data opcode inside a fragmented message; frame over max (7-, 16- and 64-bit length encodings; max in {64,100,200,1000,70000}); fragments summing over max} at a random position x segmentation (every cut offset for streams <= 250 bytes, else random cuts plus one inside the mutant's header) x 4 read APIs x inline/deferred; " +
+		Rule: "over-maximum payloads begin with the bytes of a conforming text frame and the application reads once more after the rejection (no data may come back); in one async framing case in six the read is parked, the transport stalls and 129-400 writes are queued before the violating frame arrives (the Close 1002 still follows them); " +
+			"cases = conforming stream (1-6 messages, 1-4 fragments, ping/pong in between) with exactly one mutation from {RSV bit; masked server frame; control frame FIN=0; control frame with 126-180 payload bytes; reserved opcode 3-7 / 11-15; continuation with no message in progress; data opcode inside a fragmented message; frame over max (7-, 16- and 64-bit length encodings; max in {64,100,200,1000,70000}); fragments summing over max} at a random position x segmentation (every cut offset for streams <= 250 bytes, else random cuts plus one inside the mutant's header) x 4 read APIs x inline/deferred; " +
 			"every case is non-trivial; distinct = (class, position kind, segmentation set size)",
 		Assumptions: []string{
 			"which error value is returned is not prescribed; only an error at the read that reaches the violating frame",
